@@ -64,6 +64,8 @@ class Ctx:
         self.ks, self.ns = ks, ns
         self.css = sorted(set([1, S, L + 1]))
         self.f32 = bool(c.get("f32", False))
+        # dtype of streamed chunks (whole utterances via full32 are separate operations)
+        self.xs = self.x32 if c.get("stream_dtype") == "float32" else self.x
 
     def tags(self, **kw):
         t = dict(kind=self.c["kind"], style=self.comp0.frame_style)
@@ -101,8 +103,8 @@ def _step(ctx, s, op):
     name = op[0]
     if name == "chunk":
         k = op[1]
-        a = computers.call(comp.compute_chunk, ctx.x[s.pos:s.pos + k])
-        b = computers.call(shadow.compute_chunk, ctx.x[s.pos:s.pos + k])
+        a = computers.call(comp.compute_chunk, ctx.xs[s.pos:s.pos + k])
+        b = computers.call(shadow.compute_chunk, ctx.xs[s.pos:s.pos + k])
         pos2, started2 = s.pos + k, True
     elif name == "finalize":
         a = computers.call(comp.finalize)
@@ -206,24 +208,37 @@ def replay_ops(case, seed):
 
 def configs(tier):
     out = []
-    lss = [(5, 2), (6, 2), (7, 3), (8, 8)]
-    if tier == "thorough":
-        lss += [(4, 1), (9, 4), (12, 5), (3, 3)]
+    styles = (("causal", False), ("centered", False), ("centered", True))
+    if tier == "quick":
+        lss = [(5, 2), (6, 2), (7, 3), (8, 8), (4, 1), (3, 3), (9, 4)]
+        full = {(5, 2), (6, 2), (4, 1)}
+    else:
+        lss = [(L, S) for L in range(2, 10) for S in range(1, L + 1)] + [(12, 5), (16, 6)]
+        full = set(lss)
     for L, S in lss:
-        for style, kaldi in (("causal", False), ("centered", False), ("centered", True)):
-            out.append(dict(kind="stft", bank="tri", L=L, S=S, style=style, kaldi=kaldi,
-                            window="hamming", pad=True, energy=True, f32=True))
+        for style, kaldi in styles:
+            c = dict(kind="stft", bank="tri", L=L, S=S, style=style, kaldi=kaldi,
+                     window="hamming", pad=True, energy=True, f32=True)
+            out.append(c)
+            if (L, S) in full:
+                out.append(dict(c, alphabet="full", Nmax=4 * L))
+    for style, kaldi in styles:
+        out.append(dict(kind="stft", bank="tri", L=6, S=2, style=style, kaldi=kaldi, window="hamming",
+                        pad=False, energy=True, f32=True, stream_dtype="float32"))
     out.append(dict(kind="stft", bank="gabor", L=6, S=2, style="centered", window=None, pad=False,
                     energy=False, f32=True))
-    for bank in ("gabor", "gammatone"):
+    for bank in ("gabor", "gammatone") + (("gammatone_mc", "gabor3") if tier == "thorough" else ()):
         for style in ("causal", "centered"):
             for pad in (True, False):
-                for S in ((2, 3) if tier == "quick" else (1, 2, 3, 5)):
-                    out.append(dict(kind="si", bank=bank, S=S, style=style, pad=pad,
-                                    window="hamming", energy=True))
-    if tier == "thorough":
-        out = out + [dict(c, alphabet="full", Nmax=(4 * c["L"] if c["kind"] == "stft" else None))
-                     for c in out]
+                for S in ((2, 3) if tier == "quick" else (1, 2, 3, 4, 5, 6)):
+                    c = dict(kind="si", bank=bank, S=S, style=style, pad=pad,
+                             window="hamming", energy=True, f32=True)
+                    out.append(c)
+                    if tier == "thorough" or (S == 2 and pad):
+                        out.append(dict(c, alphabet="full"))
+    for style in ("causal", "centered"):
+        out.append(dict(kind="si", bank="gabor", S=2, style=style, pad=True, window="hamming",
+                        energy=True, f32=True, stream_dtype="float32"))
     return out
 
 
